@@ -96,6 +96,11 @@ func (s *JavaAPIListener) EnterAnnotation(ctx *parser.AnnotationContext) {
 		return
 	}
 
+	// only a mapping on a member starts a handler entry
+	if !hasEnterClass {
+		return
+	}
+
 	hasEnterRestController = true
 	uri := ""
 	if ctx.ElementValue() != nil {
